@@ -430,13 +430,13 @@ def regenerate_mir():
     return out, time.time() - t
 
 
-def run_e3(prop, replay_bins):
+def run_e3(prop, replay_bins, tier="quick"):
     """returns (results, build_s) ; each result: dict with status PASS/FAILED/INCONCLUSIVE"""
     mir, dt = regenerate_mir()
     if mir is None:
         return [{"name": "e3_mir_dump", "family": "e3", "status": "INCONCLUSIVE", "reason": "MIR dump failed", "wall_s": dt}], dt
     p = subprocess.run([sys.executable, os.path.join(VERIF, "mirsmt", "run.py"), mir, prop], stdout=subprocess.PIPE,
-                       stderr=subprocess.PIPE, text=True)
+                       stderr=subprocess.PIPE, text=True, env=dict(ENV, VERIF_E3_TIER=tier))
     try:
         data = json.loads(p.stdout)
     except Exception:
@@ -530,7 +530,12 @@ def decide(prop, tier, harnesses, meta, seed=0, jobs=None, only=None, e3_only=Fa
     hs.sort(key=lambda h: -h.get("weight", 1))
 
     log("[%s/%s] building harness crate against /repo working tree ..." % (prop, tier))
-    ok, dt_build, bout = kani_prebuild()
+    if hs:
+        ok, dt_build, bout = kani_prebuild()
+    else:
+        # nothing for Kani to decide (E3-only property or --e3-only): the Kani build (which compiles /repo against the
+        # redb model) is not needed, and a change that does not build against the model must not hide the E3 verdict
+        ok, dt_build, bout = True, 0.0, ""
     if not ok:
         log("[%s] Kani build of /repo + harnesses failed" % prop)
         write_evidence(prop, tier, seed, meta, [], time.time() - t_start, 0, build_failed=True)
@@ -555,7 +560,7 @@ def decide(prop, tier, harnesses, meta, seed=0, jobs=None, only=None, e3_only=Fa
 
     if prop in e3_props() and (not only or e3_only):
         log("[%s] E3: regenerating the MIR dump and running the glue queries" % prop)
-        e3res, _ = run_e3(prop, replay_bins)
+        e3res, _ = run_e3(prop, replay_bins, tier)
         for r in e3res:
             results.append(r)
             log("  %-60s %-12s %6.1fs %s" % (r["name"], r["status"], r.get("wall_s") or 0, r.get("reason", "")))
